@@ -6,7 +6,7 @@ from hypothesis import strategies as st
 from geomdl import fitting
 
 from vp import ref
-from vp.core import SubCheck
+from vp.core import SubCheck, Skip
 
 RULE = ("Cases: data built by construction (random walks / perturbed grids with step lengths in [1/4, 4], so consecutive "
         "points are distinct), 2-D/3-D, all admissible degrees, chord-length and centripetal parametrisation, control "
@@ -139,6 +139,16 @@ def _interp_curve_cases(draw, tier):
 def check_interp_curve(case, ctx):
     Q, p, cen = case["pts"], case["degree"], case["centripetal"]
     n = len(Q)
+    try:
+        import numpy as np
+        uk0 = params_curve(Q, cen)
+        cond = float(np.linalg.cond(np.array([ref.fbasis_all(p, averaged_kv(p, n, uk0), n, u) for u in uk0])))
+    except ImportError:
+        cond = 1.0 if _chord_ratio(Q) <= 32 else float("inf")
+    if not cond < 1e9:
+        # numerically singular collocation matrix (strongly uneven data): undecidable in double precision, counted and skipped
+        raise Skip("interpolation problem numerically singular")
+    ctx.label("condition>1e3", cond > 1e3)
     crv = fitting.interpolate_curve([list(q) for q in Q], p, centripetal=cen)
     ctx.nt(_chord_ratio(Q) > 2, "non-uniform-chords")
     ctx.nt(cen, "centripetal")
@@ -200,11 +210,45 @@ def _approx_curve_cases(draw, tier):
     return {"pts": _scaled(draw(_walk(n, dim)), draw(SCALES)), "degree": p, "size": h, "centripetal": draw(st.booleans()), "default": draw(st.integers(0, 5)) == 0}
 
 
+def placed_kv(p, n, h, uk):
+    """Knot placement of Eqs 9.68 / 9.69 (n data points, h control points), written from the book."""
+    d = float(n) / float(h - p)
+    kv = [0.0] * (p + 1)
+    for j in range(1, h - p):
+        i = int(j * d)
+        a = j * d - i
+        kv.append((1.0 - a) * uk[i - 1] + a * uk[i])
+    return kv + [1.0] * (p + 1)
+
+
+def _condition(p, n, h, uk):
+    """2-norm condition number of the interior collocation matrix of the least-squares problem (None without numpy)."""
+    try:
+        import numpy as np
+    except Exception:
+        return None
+    U = placed_kv(p, n, h, uk)
+    A = np.array([ref.fbasis_all(p, U, h, u)[1:h - 1] for u in uk[1:-1]])
+    if A.size == 0:
+        return 1.0
+    return float(np.linalg.cond(A))
+
+
 def check_approx_curve(case, ctx):
     Q, p, h, cen = case["pts"], case["degree"], case["size"], case["centripetal"]
     n = len(Q)
     if case["default"] and n - 1 >= p + 2:
         h = n - 1
+    # strongly uneven data can make the least-squares problem numerically singular (condition number of the collocation
+    # matrix beyond 1e7, of the normal equations beyond 1e14): no double-precision solver decides the minimiser there,
+    # so such data are outside what the property can be asked about; they are counted and skipped
+    cond = _condition(p, n, h, params_curve(Q, cen))
+    if cond is None:
+        cond = 1.0 if _chord_ratio(Q) <= 32 else float("inf")
+    if not cond < 1e7:
+        raise Skip("least-squares problem numerically singular")
+    ctx.label("condition>1e3", cond > 1e3)
+    if case["default"] and n - 1 >= p + 2:
         crv = fitting.approximate_curve([list(q) for q in Q], p, centripetal=cen)
     else:
         crv = fitting.approximate_curve([list(q) for q in Q], p, centripetal=cen, ctrlpts_size=h)
